@@ -16,7 +16,7 @@ if mode=='sensitivity':
     out='/verif/sensitivity/results.json'
 elif mode=='benign':
     # behaviour-preserving refactorings written by sub-agents: every claimed check must stay silent
-    props={'B1':['C15','C12','C17'],'B2':['C17','C12'],'B3':['C16','C07']}
+    props={'B1':['C15','C12','C17'],'B2':['C17','C12'],'B3':['C16','C07'],'B5':['C15','C12','C17','C16','C07']}
     for d in sorted(glob.glob('/verif/benign/*/patch.diff')):
         name=os.path.basename(os.path.dirname(d))
         for pr in props[name.split('-')[0]]:
